@@ -47,13 +47,14 @@ class Sym:
 
 class State:
     """cells: key -> sym id ; syms: id -> (lo, hi) [path-sensitive part]; rel: set of (a, op, b) ; facts: set"""
-    __slots__ = ("cells", "iv", "rel", "facts")
+    __slots__ = ("cells", "iv", "rel", "facts", "ub")
 
     def __init__(self):
         self.cells = {}
         self.iv = {}
         self.rel = set()
         self.facts = set()
+        self.ub = {}      # sym -> provenance of an expression known to bound it from above (survives the bound's death)
 
     def copy(self):
         s = State()
@@ -61,6 +62,7 @@ class State:
         s.iv = dict(self.iv)
         s.rel = set(self.rel)
         s.facts = set(self.facts)
+        s.ub = dict(self.ub)
         return s
 
 
@@ -603,6 +605,10 @@ class Interp:
         if bsid is not None:
             st.iv[bsid] = (blo2, bhi2)
         if asid is not None and bsid is not None:
+            if op in ("Lt", "Le", "Eq"):
+                self.note_ub(st, asid, bsid)
+            if op in ("Gt", "Ge", "Eq"):
+                self.note_ub(st, bsid, asid)
             if op == "Lt":
                 st.rel.add((asid, "<", bsid))
             elif op == "Le":
@@ -621,6 +627,13 @@ class Interp:
                 if self.ite:
                     self.apply_ite(st, sid)
         return True
+
+    def note_ub(self, st, a, b):
+        """a <= b was established: remember what b is computed from"""
+        pb = self.syms[b].prov | st.ub.get(b, frozenset())
+        old = st.ub.get(a)
+        if old is None or not _size_derived(old):
+            st.ub[a] = pb
 
     def back_propagate(self, st, sid, depth=0):
         """a refinement of `sid` refines the symbols it was computed from, for invertible definitions"""
@@ -1514,6 +1527,12 @@ class Interp:
         out.facts = old.facts & new.facts
         if out.facts != old.facts:
             changed = True
+        for a, p in old.ub.items():
+            q = new.ub.get(a)
+            if q is not None and a in live:
+                out.ub[a] = p | q
+        if out.ub != old.ub:
+            changed = True
         return out, changed
 
     def record_ite(self, sid, k, old, new, iv_old, iv_new):
@@ -1738,6 +1757,22 @@ TRANSPARENT = {
     "core::convert::AsRef::as_ref", "core::borrow::Borrow::borrow",
 }
 TRANSPARENT_LAST = {"iter", "as_ref", "as_slice", "as_str", "as_bytes", "deref", "borrow", "values", "keys"}
+
+
+def _size_derived(prov):
+    """roots are only constants, integer parameters, stream positions and box_start results, with at least one
+    parameter or position (i.e. the value is a function of the enclosing box's size / the file length)"""
+    if not prov:
+        return False
+    has = False
+    for r in prov:
+        if r == "C":
+            continue
+        if r == "POS" or (r.startswith("P") and r[1:].isdigit()) or r.endswith("::box_start") and r.startswith("CALL:"):
+            has = True
+            continue
+        return False
+    return has
 
 
 def _vacuous(st, k):
